@@ -75,7 +75,7 @@ class Func:
 
     def loc(self, node: Optional[ast.AST] = None) -> str:
         n = node if node is not None else self.node
-        return "%s:%d" % (self.module.relpath, getattr(n, "lineno", 0))
+        return "%s:%d" % (getattr(n, "_inl_file", None) or self.module.relpath, getattr(n, "lineno", 0))
 
 
 @dataclass
@@ -600,6 +600,22 @@ class Resolver:
                 if fn.id in g.nested:
                     return ("func", g.nested[fn.id].qualname)
                 g = g.parent
+            # a local bound once to a function object (`helper = Class._helper`): the call goes to that function
+            if fn.id not in f.params:
+                cache = self.__dict__.setdefault("_name_binds", {})
+                if f.qualname not in cache:
+                    tbl: Dict[str, list] = {}
+                    for n in own_nodes(f.node):
+                        if isinstance(n, ast.Assign):
+                            for t in n.targets:
+                                if isinstance(t, ast.Name):
+                                    tbl.setdefault(t.id, []).append(n)
+                    cache[f.qualname] = tbl
+                binds = cache[f.qualname].get(fn.id, [])
+                if len(binds) == 1 and isinstance(binds[0].value, (ast.Name, ast.Attribute)) and not (isinstance(binds[0].value, ast.Name) and binds[0].value.id == fn.id):
+                    tv = self.resolve_value(binds[0].value, f, local)
+                    if tv and tv[0] == "func":
+                        return tv
             if fn.id in local:
                 ty = local[fn.id]
                 if ty.startswith("type:"):
